@@ -70,6 +70,8 @@ fn main() {
         "C08" => dispatch(props::c08::C08(Default::default()), &cfg, &replay),
         "C09" => dispatch(props::c09::C09, &cfg, &replay),
         "C10" => dispatch(props::c10::RelProp(props::c10::RWhich::C10), &cfg, &replay),
+        "C17" => dispatch(props::c17::C17, &cfg, &replay),
+        "C19" => dispatch(props::c19::C19, &cfg, &replay),
         "C15" => dispatch(props::c15::C15, &cfg, &replay),
         "C14" => dispatch(props::c14::C14, &cfg, &replay),
         "C11" => dispatch(props::c11::C11(Default::default()), &cfg, &replay),
